@@ -270,6 +270,25 @@ func runCheck(id, tier string, seed int64) int {
 			a.worldsBooted++
 			a.shapes[strings.Join(bw.Spec.Features, ",")] = true
 			for mi, mode := range pc.modes {
+				if mode == "coldstart" {
+					// one short-lived runner process per route (rotating window when the world has
+					// more routes than the tier allows): every plan of it is among the first
+					// requests that process ever serves
+					n := 0
+					for _, f := range bw.Spec.Files {
+						for _, s := range f.Services {
+							n += len(s.Methods)
+						}
+					}
+					first := int(gen.Mix(uint64(seed), uint64(a.worldsBooted)) % uint64(maxInt(n, 1)))
+					for ci := 0; ci < n && ci < tc.cold; ci++ {
+						ri := (first + ci) % n
+						jobs = append(jobs, &job{world: bw, mode: fmt.Sprintf("coldstart#%d", ri), checks: tc.coldChk,
+							rseed: gen.Mix(uint64(seed), uint64(ri)*7919+uint64(start)*977+uint64(a.worldsBooted))%1000000007 + 1,
+							out:   filepath.Join(scratch, fmt.Sprintf("res-%s-cold%d.json", bw.Spec.Name, ri))})
+					}
+					continue
+				}
 				jobs = append(jobs, &job{world: bw, mode: mode, checks: tc.checks,
 					rseed: gen.Mix(uint64(seed), uint64(len(jobs))*31+uint64(mi)+uint64(start)*977)%1000000007 + 1,
 					out:   filepath.Join(scratch, fmt.Sprintf("res-%s-%s.json", bw.Spec.Name, mode))})
